@@ -295,6 +295,12 @@ def reactor_trace(enc_mod, seed, nbytes, keybits=1024, conn=None):
             self.inb, self.out = b'', b''
 
         def send(self, b):
+            if self.fail_in is not None:
+                self.fail_in -= 1
+                if self.fail_in < 0:
+                    self.fail_in = None
+                    import errno
+                    raise InterruptedError(errno.EINTR, 'Interrupted system call')      # nothing was transferred
             self.out += bytes(b)
             return len(b)
 
@@ -303,6 +309,7 @@ def reactor_trace(enc_mod, seed, nbytes, keybits=1024, conn=None):
             return r
 
         read = recv
+        fail_in = None
 
         def fileno(self):
             return 0
@@ -353,10 +360,22 @@ def reactor_trace(enc_mod, seed, nbytes, keybits=1024, conn=None):
             pending.write(sink)
             queued_ok = P.CFB8(key).decrypt(w.out[before:]) == sink.value() and not plain_tail
         sent = recvd = 0
+        # the peer's view of what the client sends from here on: an independent CFB8 in step with the wire so far
+        peer_dec = P.CFB8(key)
+        if pending is not None and queued_ok:
+            peer_dec.decrypt(w.out[before:])
+        wire_from, handed = len(w.out), b''
+        if seed % 3 == 0:
+            w.fail_in = rng.randrange(1, 6)         # one send on the underlying socket is interrupted before it transfers anything
         while sent < nbytes or recvd < nbytes:
             if sent < nbytes and (recvd >= nbytes or rng.random() < 0.4):
                 k = min(nbytes - sent, rng.choice([1, 2, 7, 16, 30]))
-                conn.socket.send(bytes(rng.getrandbits(8) for _ in range(k)))
+                chunk = bytes(rng.getrandbits(8) for _ in range(k))
+                try:
+                    conn.socket.send(chunk)
+                except OSError:
+                    break               # the error is the caller's to handle: the connection is given up, nothing more is sent
+                handed += chunk
                 sent += k
             else:
                 k = min(nbytes - recvd, rng.choice([1, 3, 16, 17, 40]))
@@ -366,7 +385,10 @@ def reactor_trace(enc_mod, seed, nbytes, keybits=1024, conn=None):
                     m = rng.randint(1, k - got)
                     got += len(conn.file_object.read(m) if rng.random() < 0.6 else conn.socket.recv(m))
                 recvd += k
+        stream_ok = peer_dec.decrypt(w.out[wire_from:]) == handed
     ev = events_of(taps.all)
+    if not stream_ok:
+        queued_ok = False
     return {'secret': list(secret), 'key': list(key), 'login': True, 'urandom': [list(u) for u in taps.urandom], 'kl': kl,
             'blocks': ems, 'token': list(tok), 'ev': ev, 'plain_tail': plain_tail.hex(), 'queued_ok': queued_ok}
 
@@ -401,8 +423,8 @@ def run(chk):
         tr = reactor_trace(enc_mod, chk.seed * 30011 + j, 50 if quick else rng.choice([40, 120]), keybits=2048 if j % 3 == 2 else 1024)
         tr['meta'] = {'kind': 'login-reactor wrappers, mixed read/recv', 'seed': chk.seed * 30011 + j}
         if tr.pop('plain_tail') or not tr.pop('queued_ok'):
-            chk.violation('cipher:plaintext-after-encryption-response', 'a packet that was queued when the encryption request arrived did not '
-                          'go out as the CFB8 encryption of its frame after the encryption response (login-reactor trace %d)' % j, {'j': j})
+            chk.violation('cipher:plaintext-after-encryption-response', 'what the peer decrypts after the encryption response is not what the client handed in (a packet queued when the '
+                          'encryption request arrived, then the client\'s sends - one of them interrupted before transferring anything; login-reactor trace %d)' % j, {'j': j})
         chk.case(('reactor', j))
         traces.append(tr)
     # several logins through one and the same Connection object: each negotiates a secret of its own
